@@ -20,28 +20,24 @@ def run_timeout(seconds: float, func, *args, **kwargs):
         raise RuntimeError('Time limiter not compatible with monkey-patched gevent threading module!')
 
     def _inner_run():
-        interrupted = False
-        thread = None
-        try:
-            with multiprocessing.pool.ThreadPool(processes=1) as pool:
-                thread = pool.apply(lambda: threading.current_thread())
+        interrupted = None
+        with multiprocessing.pool.ThreadPool(processes=1) as pool:
+            thread = pool.apply(lambda: threading.current_thread())
 
-                try:
-                    return pool.apply_async(func, args, kwargs).get(timeout=seconds)
-                except multiprocessing.TimeoutError:
-                    pass
-        except KeyboardInterrupt:
-            # Interrupted (e.g. by an enclosing time limiter) while waiting or while the pool is being closed (which can
-            # take a while): do not leave the worker running. Note: the exception itself is not kept, as its traceback
-            # would keep the interrupted frames (and the buffers they were sending) alive
-            interrupted = True
+            try:
+                return pool.apply_async(func, args, kwargs).get(timeout=seconds)
+            except multiprocessing.TimeoutError:
+                pass
+            except KeyboardInterrupt as e:
+                # Interrupted while waiting (e.g. by an enclosing time limiter): do not leave the worker running
+                interrupted = e
 
-        if thread is not None and thread.is_alive():
+        if thread.is_alive():
             ctypes.pythonapi.PyThreadState_SetAsyncExc(
                 ctypes.c_long(thread.ident), ctypes.py_object(KeyboardInterrupt))
             thread.join()
-        if interrupted:
-            raise KeyboardInterrupt
+        if interrupted is not None:
+            raise interrupted
         raise TimeoutError
 
     # This call flow ensure that the memory of the "killed" thread is cleared
